@@ -224,6 +224,22 @@ def run(ck):
     def raises_for(env_):
         """Does __init__ reach one of its raise statements for these argument values?  Only the
         `if <test>: raise` statements whose test can be evaluated from env_ take part."""
+        # first choice: run the whole constructor (any layout) with stand-ins for what it calls
+        a_ = ini.node.args
+        env = {'dest': 'DEST', 'etype': 'put', 'interval': 5, 'count': None,
+               'isinstance(etype, block.EventCond)': False, 'block.Event': lambda *a, **k: 'EVENT',
+               'utils.time_period': lambda x: x, 'super().__init__': lambda *a, **k: None}
+        if a_.vararg:
+            env[a_.vararg.arg] = ()
+        if a_.kwarg:
+            env[a_.kwarg.arg] = {}
+        for k_, v_ in env_.items():
+            env['interval' if k_ == 'self._interval' else k_] = v_
+        try:
+            res = MiniEval(R4, env).run(ini.node.body)
+            return res[0] in ('raise', 'fault')
+        except AnalysisError:
+            pass
         hit = False
         for st_ in ini.node.body:
             if isinstance(st_, ast.If) and st_.body and isinstance(st_.body[-1], ast.Raise) and not st_.orelse:
